@@ -1,2 +1,3 @@
 SPECIFICATION TraceSpec
 CHECK_DEADLOCK FALSE
+CONSTANT Tier = "quick"
